@@ -740,7 +740,9 @@ func (w *WAL) AppendBatch(entries []*Entry) (uint64, error) {
 		if err != nil {
 			return 0, fmt.Errorf("failed to write entry %d: %w", i, err)
 		}
+		verifhook.Point("wal.batch.record")
 	}
+	verifhook.Point("wal.batch.buffered")
 
 	// Update next sequence number by 1 (not by batch size)
 	w.nextSequence = startSeqNum + 1
@@ -752,6 +754,7 @@ func (w *WAL) AppendBatch(entries []*Entry) (uint64, error) {
 	if err := w.maybeSync(); err != nil {
 		return 0, err
 	}
+	verifhook.Point("wal.batch.done")
 
 	return startSeqNum, nil
 }
